@@ -221,6 +221,7 @@ class Interp:
         self.grids = [build_grid(s, k) for k, s in enumerate(grids)] if mode != 'plain' else [None] * len(grids)
         self.env = {}
         self.findings = []       # (key, what) found by the node-level oracle
+        self.shaped_ops = []     # kind of object ('f<g>' / 'p' / 's' / '?') handed to every `.shaped` evaluated so far
 
     # -- helpers
     def grid_id(self, g):
@@ -355,6 +356,7 @@ class Interp:
         if t == 'shaped':
             a = self.ev(e[1])
             if self.mode != 'plain':
+                self.shaped_ops.append(describe(a, self).get('tag', '?'))
                 return a.shaped
             g = e[2]            # plain reference: the generator records the grid id
             gs = grid_shape(self.specs[g])
@@ -474,32 +476,64 @@ def describe(v, interp=None):
 
 
 def run_program(prog, mode):
-    """Returns (observations per statement [(var, obs) | ('E', kind, text)], final dump, findings)."""
+    """Returns (observations per statement [(var, obs) | ('E', kind, text)], final dump, findings,
+    per statement the kinds of object handed to `.shaped`)."""
     kw = {} if mode == 'plain' else {'new_style': mode == 'new'}
-    trace, dump, findings = [], None, []
+    trace, dump, findings, shaped_ops = [], None, [], []
+    flips = mixed_flips(prog) if mode == 'mixed' else None
     with config(**kw), warnings.catch_warnings():
         warnings.simplefilter('ignore')
         it = Interp(mode, prog['grids'])
         ok = True
-        for s in prog['stmts']:
+        for i, s in enumerate(prog['stmts']):
+            nsh = len(it.shaped_ops)
             try:
-                x = it.st(s)
-                trace.append((x, it.observe(x)))
+                if flips is None:
+                    x = it.st(s)
+                    trace.append((x, it.observe(x)))
+                else:
+                    # the Field style is switched between statements: objects made under one style are operands,
+                    # in-place targets and aliases under the other
+                    with config(new_style=flips[i]):
+                        x = it.st(s)
+                        trace.append((x, it.observe(x)))
+                shaped_ops.append(it.shaped_ops[nsh:])
             except MachineryError:
                 raise
             except Exception as e:  # noqa
                 trace.append(('E', err_class(e), '%s: %s' % (type(e).__name__, str(e)[:120])))
+                shaped_ops.append(it.shaped_ops[nsh:])
                 ok = False
                 break
         if ok:
             dump = {}
-            for x in prog['final']:
+            for x in prog['final'] + prog.get('final_views', []):
                 try:
                     dump[x] = it.observe(x)
                 except Exception as e:  # noqa
                     dump[x] = {'err': err_class(e)}
         findings = it.findings
-    return trace, dump, findings
+    return trace, dump, findings, shaped_ops
+
+
+def mixed_flips(prog):
+    """the Field style configured while each statement runs in the 'mixed' run (a function of the program only, so that
+    replays see the same): alternating per statement, or one switch in the middle; either style first"""
+    n = len(prog['stmts'])
+    h = sum(len(str(s)) for s in prog['stmts'])
+    first = bool(h % 2)
+    if (h // 2) % 2:
+        return [first ^ bool(i % 2) for i in range(n)]
+    return [first ^ (i >= (n + 1) // 2) for i in range(n)]
+
+
+def shaped_divergence(old, new):
+    """(index of the first statement in which the two styles hand different kinds of object to the same
+    `.shaped`, kinds under old, kinds under new) or None — from the real runs only"""
+    for i, (a, b) in enumerate(zip(old[3], new[3])):
+        if any(x != y for x, y in zip(a, b)):
+            return i, a, b
+    return None
 
 
 def same_values(a, b, tol=TOL):
@@ -650,6 +684,12 @@ def parse_model_answer(line):
     for sec in secs:
         name, _, body = sec.partition(' ')
         body = body.strip()
+        if name == 'A':
+            flag, _, at = body.partition(' ')
+            if flag not in ('0', '1') or (at == '-') != (flag == '1'):
+                raise MachineryError('model answered %r' % sec)
+            res['A'] = None if flag == '1' else int(at)
+            continue
         res[name] = None if body == '-' else [parse_model_obs(t) for t in body.split(' ') if t]
     return res
 
@@ -909,6 +949,7 @@ class Builder:
         elif r < 0.32:
             self.grids.append(self._grid(int(rng.integers(1, 41))))   # … or of another size (shape errors)
         self.plain = Interp('plain', self.grids)
+        self.view_obs = []    # views of a root that was updated in place afterwards: read at the end by the oracle only
         self.stmts = []
         self.info = {}        # var -> dict(level, root, view, tags=(old,new), grid)
         self.nvar = 0
@@ -976,7 +1017,7 @@ class Builder:
                 h = ops[0][r]
                 left = next((o[r] for o in ops if o[r][0] == 'f'), None)
                 if cls == 'keep':
-                    res.append(h if h[0] == 'f' else bare)
+                    res.append(h if h[0] in 'fp' else bare)
                 elif cls == 'scalar0':
                     res.append(('s' if nd == 0 else h) if h[0] == 'f' else bare)
                 elif cls == 'func':
@@ -1201,6 +1242,21 @@ class Builder:
             to, tn = self.tags_of(base)
             if r < 0.45 and to[0] == 'f' and to == tn:
                 e = ['shaped', base, int(to[1:])]
+                r2 = rng.random()
+                if r2 < 0.06 and k != 'c':
+                    # .shaped of a 0-d result: a 0-d Field on the subclass route, a scalar on the wrapper route
+                    e = ['shaped', ['red', str(rng.choice(['sum', 'max', 'min'])), 'all', sp, base], int(to[1:])]
+                elif r2 < 0.10 and k != 'b' and np.ndim(v) >= 1:
+                    # .shaped of np.where(...): a bare ndarray on the subclass route, a Field on the wrapper route
+                    m = self.mask_like(base)
+                    if m is not None:
+                        inner = ['app3', 'where', sp, m, base, self.scalar('r')]
+                        wo, wn = self.tags_of(inner)      # the wrapper attaches the grid of the leftmost Field argument (the mask's, if it is one)
+                        if wn[0] == 'f' and wo[0] != 'f':
+                            e = ['shaped', inner, int(wn[1:])]
+            elif r < 0.45 and to != tn and (to[0] == 'f' or tn[0] == 'f') and rng.random() < 0.6:
+                # a Field under one style only (accepted divergence; see `oracle`)
+                e = ['shaped', base, int((to if to[0] == 'f' else tn)[1:])]
             elif r < 0.75 and np.ndim(v) >= 1:
                 size = int(np.size(v))
                 divs = [d for d in range(1, size + 1) if size % d == 0]
@@ -1354,6 +1410,8 @@ class Builder:
                 t2 = self.info[x]['tags']
                 if not (t2[0][0] == 'f' and t2[0] == t2[1]) or self.kind_of_val(self.plain.env[x]) == 'b':
                     return False
+                if s2 and s2[-1] != int(np.prod(self.grids[int(t2[0][1:])]['dims'])):
+                    return False          # not a valid field any more (fancy-indexed to the length of another grid)
                 return len(s2) in (2, 3) and s2[-1] == n and 1 not in s2[:-1]
             cands = [x for x in self.live() if ok(x)]
             o = ['var', int(rng.choice(cands))] if cands and rng.random() < 0.7 else self.field_lit(g=int(to[1:]), tensor=[[shp[-2]], [shp[-2], 2], [shp[-2], 3]][int(rng.integers(0, 3))])
@@ -1474,6 +1532,7 @@ class Builder:
             'level': self.level(e), 'tags': self.tags(e, v) if ok_val and e[0] != 'ext' else ('?', '?'),
             'root': self.info[root]['root'] if root is not None else self._newroot(),
             'view': root is not None, 'usable': ok_val,
+            'observable': root is None or (self.observable_view(e) and self.info[root].get('observable', True)),
         }
         if not ok_val:
             # tuples, lists, strings: observed once, not used as operands
@@ -1491,10 +1550,32 @@ class Builder:
                 and getattr(self.plain.env[x], 'flags', None) is not None and self.plain.env[x].flags.writeable
                 and self.kind_of_val(self.plain.env[x]) != 'b' and self.info[x]['tags'][0] != '?']
 
+    def observable_view(self, e):
+        """`e` is built from variables by basic indexing / reshape / ravel / shaped / real / imag only: whether such a value shares
+        memory with its root is decided by NumPy on the underlying data, identically for plain arrays and both Field styles"""
+        t = e[0]
+        if t == 'var':
+            return True
+        if t == 'idx':
+            return e[1] in ('at0', 'atl', 'sl', 'psl') and self.observable_view(e[3])
+        if t == 'shaped':
+            return self.observable_view(e[1])
+        if t == 'reshape':
+            return self.observable_view(e[3])
+        if t == 'ravel':
+            return self.observable_view(e[2])
+        if t == 'un' and e[1] in ('re', 'im'):
+            return self.observable_view(e[3])
+        return False
+
     def kill_views(self, x):
+        """after an in-place statement on `x`: values derived from the same memory are no longer used as operands (the
+        model's stores copy on assignment) — but they stay in the read-out of the plain / old / new oracle (`final_views`)"""
         root = self.info[x]['root']
         for y in list(self.info):
             if self.info[y]['root'] == root and self.info[y]['view']:
+                if self.info[y].get('observable') and np.ndim(self.plain.env.get(y)) >= 1:
+                    self.view_obs.append(y)
                 del self.info[y]
                 self.plain.env.pop(y, None)
 
@@ -1698,7 +1779,7 @@ class Builder:
                 res = self.add_inplace()
             if res == 'error':
                 break
-        return {'grids': self.grids, 'stmts': self.stmts, 'final': self.live()}
+        return {'grids': self.grids, 'stmts': self.stmts, 'final': self.live(), 'final_views': sorted(set(self.view_obs))}
 
 
 def gen_program(rng, ext=False, big=False):
@@ -1895,10 +1976,13 @@ def _pipelines():
 METHODS = [['scipy'], ['numpy'], ['mkl', 'fftw', 'numpy'], ['mkl', 'scipy', 'fftw', 'numpy']]
 
 
-def all_combos():
+def all_combos(full=False):
+    """quick: 64 combinations in which every *pair* of switches takes all four settings (nft_pre = mft_pre xor mft_alloc,
+    so the two precompute switches vary independently of each other); full: the whole product (128; two of the six thorough rounds)"""
     res = []
     for new, emu, pre, alloc, meth in itertools.product([False, True], [True, False], [True, False], [True, False], METHODS):
-        res.append({'new_style': new, 'emulate': emu, 'mft_pre': pre, 'mft_alloc': alloc, 'nft_pre': not pre, 'method': meth})
+        for nft in ([True, False] if full else [pre != alloc]):
+            res.append({'new_style': new, 'emulate': emu, 'mft_pre': pre, 'mft_alloc': alloc, 'nft_pre': nft, 'method': meth})
     return res
 
 
@@ -1907,8 +1991,24 @@ def run_pipeline(name, params, combo):
         warnings.simplefilter('error')
         warnings.filterwarnings('ignore', category=SyntaxWarning)
         warnings.filterwarnings('ignore', category=DeprecationWarning)
+        import hcipy
         out = _pipelines()[name](params)
-        return [np.array(np.asarray(o)) for o in out]
+        style = type(hcipy.Field(np.zeros(2), None))
+        res = []
+        for o in out:
+            a = PipeOut(np.asarray(o))
+            # kind of object handed out: a Field (of the configured style) on which grid, or a bare array
+            a.kind = ('F' if is_field(o) else 'A') if np.ndim(o) > 0 else '0'
+            a.grid = o.grid if is_field(o) else None
+            a.style_ok = (not is_field(o)) or type(o) is style
+            res.append(a)
+        return res
+
+
+class PipeOut(np.ndarray):
+    """the values of one pipeline output, carrying what kind of object it was"""
+    def __new__(cls, arr):
+        return np.array(arr).view(cls)
 
 
 def compare_pipeline(ref, out):
@@ -1918,6 +2018,13 @@ def compare_pipeline(ref, out):
     for i, (a, b) in enumerate(zip(ref, out)):
         if a.shape != b.shape:
             return 'output %d has shape %s instead of %s' % (i, b.shape, a.shape)
+        if not b.style_ok:
+            return 'output %d is a Field of the style that is not configured' % i
+        if a.kind != b.kind:
+            return 'output %d is %s instead of %s' % (i, {'F': 'a Field', 'A': 'a bare array', '0': '0-d'}[b.kind], {'F': 'a Field', 'A': 'a bare array', '0': '0-d'}[a.kind])
+        if a.kind == 'F' and not ((a.grid is None and b.grid is None) or (a.grid is not None and b.grid is not None and a.grid == b.grid)):
+            return 'output %d is a Field on a different grid' % i
+        a, b = np.asarray(a), np.asarray(b)
         if a.size == 0:
             continue
         scale = float(np.max(np.abs(a)))
@@ -2336,14 +2443,19 @@ def stmt_sig(s):
     return t
 
 
-def oracle(prog, plain, old, new):
+def oracle(prog, plain, old, new, mixed=None):
     """list of (key, what)"""
     bad = []
-    for mode, run in (('old', old), ('new', new)):
+    if mixed is None:
+        mixed = run_program(prog, 'mixed')
+    for mode, run in (('old', old), ('new', new)) + ((('mixed', mixed),) if mixed else ()):
         for key, what in run[2]:
             bad.append((key, what))
+    if mixed:
+        bad += mixed_oracle(prog, plain, mixed, old, new)
     ptrace, otrace, ntrace = plain[0], old[0], new[0]
     tainted = set()        # a style whose values already went wrong: later differences are consequences
+    div = shaped_divergence(old, new)
     for i, s in enumerate(prog['stmts']):
         sig = stmt_sig(s)
         if i >= len(ptrace):
@@ -2355,6 +2467,18 @@ def oracle(prog, plain, old, new):
             break
         stop = False
         pairs = (('old', o, n), ('new', n, o))
+        if div is not None and div[0] == i:
+            # accepted divergence: `.shaped` of something that is a Field under one style only (0-d results are
+            # scalars under the wrapper, np.where drops the subclass).  Exactly this is accepted: the style in
+            # which the operand is no Field raises AttributeError; the other style is held to the reference.
+            pairs = []
+            for mode, r, other, kinds in (('old', o, n, div[1]), ('new', n, o, div[2])):
+                if all(k[0] == 'f' for k in kinds):
+                    pairs.append((mode, r, other))
+                elif not (r[0] == 'E' and r[1] == 'attr'):
+                    bad.append(('shaped-of-non-field %s %s' % (mode, sig), '%s: .shaped of a %s does not raise AttributeError with %s-style fields but gives %s' % (
+                        sig, [k for k in kinds if k[0] != 'f'][0], mode, short(r[1]) if r[0] != 'E' else r[2])))
+            stop = True
         if s[0] == 'assign' and s[2][0] == 'ext' and EXT[s[2][1]].get('fieldonly'):
             p = o                       # field-only library function: the styles are compared with each other
             pairs = (('new', n, o),)
@@ -2381,15 +2505,61 @@ def oracle(prog, plain, old, new):
         for mode, run in (('old', old), ('new', new)):
             if run[1] is None or mode in tainted:
                 continue
-            for x in prog['final']:
+            for x in prog['final'] + prog.get('final_views', []):
                 a, b = run[1].get(x), plain[1].get(x)
                 if a is None or b is None:
                     continue
                 if not same_obs_values(a, b):
                     last = [stmt_sig(s) for s in prog['stmts'] if s[0] in INPLACE_STMTS]
+                    if x in prog.get('final_views', []):
+                        bad.append(('view-read %s %s' % (mode, last[-1] if last else '-'),
+                                    'variable %d, derived from a variable that was updated in place afterwards, holds %s at the end with %s-style fields, %s on plain arrays (a view that copies, or a copy that aliases)' % (
+                                        x, short(a), mode, short(b))))
+                        break
                     bad.append(('final-read %s %s' % (mode, last[-1] if last else '-'),
                                 'variable %d read at the end holds %s with %s-style fields, the plain-array reference holds %s (stale alias or lost write)' % (x, short(a), mode, short(b))))
                     break
+    return bad
+
+
+def mixed_oracle(prog, plain, mixed, old, new):
+    """the run in which the configured Field style is switched between statements, against the plain-array reference:
+    same values, shapes, dtype classes and exception classes at every statement and in the final read-out"""
+    bad = []
+    flips = mixed_flips(prog)
+    for i, s in enumerate(prog['stmts']):
+        if i >= len(plain[0]) or i >= len(mixed[0]):
+            break
+        sig = stmt_sig(s)
+        p, r = plain[0][i], mixed[0][i]
+        if any(k[0] != 'f' for k in mixed[3][i]) or not (i < len(old[3]) and i < len(new[3]) and mixed[3][i] == old[3][i] == new[3][i]):
+            # `.shaped` of something that is not the same kind of object (a Field on the same grid) under old-style, new-style
+            # and this mixture of styles: the accepted divergence of `oracle` (0-d results, np.where - whose result takes the
+            # grid of the leftmost *new-style* argument in a mixture)
+            return bad
+        if s[0] == 'assign' and s[2][0] == 'ext' and EXT[s[2][1]].get('fieldonly'):
+            if r[0] == 'E' and p[0] != 'E' or p[0] is None:
+                return bad      # field-only library functions have no plain reference
+            continue
+        cfg = 'configured style %s, previous statement %s' % ('new' if flips[i] else 'old', ('new' if flips[i - 1] else 'old') if i else '-')
+        if p[0] == 'E':
+            if r[0] != 'E':
+                bad.append(('no-error mixed %s' % sig, '%s raises %s on plain arrays but not when the Field style is switched between statements (%s)' % (sig, p[1], cfg)))
+            elif r[1] != p[1]:
+                bad.append(('error-class mixed %s' % sig, '%s raises %s on plain arrays but %s when the Field style is switched between statements (%s)' % (sig, p[2], r[2], cfg)))
+            return bad
+        if r[0] == 'E':
+            bad.append(('raises mixed %s %s' % (sig, r[1]), '%s works on plain arrays and with either Field style alone, but raises %s when the Field style is switched between statements (%s)' % (sig, r[2], cfg)))
+            return bad
+        if not same_obs_values(r[1], p[1]):
+            bad.append(('values mixed %s' % sig, '%s gives %s when the Field style is switched between statements (%s), the plain-array reference gives %s' % (sig, short(r[1]), cfg, short(p[1]))))
+            return bad
+    if plain[1] is not None and mixed[1] is not None:
+        for x in prog['final'] + prog.get('final_views', []):
+            a, b = mixed[1].get(x), plain[1].get(x)
+            if a is not None and b is not None and not same_obs_values(a, b):
+                bad.append(('final-read mixed', 'variable %d read at the end holds %s when the Field style is switched between statements, the plain-array reference holds %s' % (x, short(a), short(b))))
+                break
     return bad
 
 
@@ -2433,6 +2603,7 @@ def shrink(prog, fails):
             if not ok:
                 continue
             cand['final'] = [x for x in cur['final'] if x in defined]
+            cand['final_views'] = [x for x in cur.get('final_views', []) if x in defined]
             if still(cand):
                 cur = cand
                 changed = True
@@ -2442,6 +2613,20 @@ def shrink(prog, fails):
 def correspondence(ctx, prog, old, new, answer):
     """real old-style run vs the model's subclass route, real new-style run vs the wrapper route"""
     ans = parse_model_answer(answer)
+    # `agree?` (hypothesis of backends_same_values) against where the real styles first hand different kinds of
+    # object to `.shaped`; the model also inspects `.shaped` nodes that a raising statement never reaches
+    div = shaped_divergence(old, new)
+    real_at = None if div is None else div[0]
+    ctx.traces_validated += 1
+    if ans['A'] != real_at:
+        i = ans['A']
+        raised = i is not None and real_at is None and any(i < len(r[0]) and r[0][i][0] == 'E' for r in (old, new))
+        if raised:
+            ctx.count('agree:model-0-node-unreached')
+        else:
+            ctx.disagree('C19 agree? vs real .shaped operands', {'prog': prog, 'model_first_disagreeing_stmt': ans['A'], 'impl_first_disagreeing_stmt': real_at,
+                                                                'impl_kinds': None if div is None else [div[1], div[2]]})
+    ctx.count('agree:%s' % ('1' if ans['A'] is None else '0'))
     for mode, run, tkey, dkey in (('old', old, 'O', 'DO'), ('new', new, 'N', 'DN')):
         mtrace = ans[tkey] or []
         rtrace = run[0]
@@ -2472,6 +2657,386 @@ def correspondence(ctx, prog, old, new, answer):
         if diff is not None:
             ctx.disagree('C19 %s-style vs %s route' % (mode, 'subclass' if mode == 'old' else 'wrapper'),
                          {'prog': prog, 'at': diff[0], 'stmt': stmt_sig(prog['stmts'][diff[0]]) if isinstance(diff[0], int) else 'final', 'detail': diff[1]})
+
+
+# ---------------------------------------------------------------------------------------------
+# Fourier half, tied to Model/FourierSwitch.lean: backend selection (`_make_func`) over recording fake
+# backends, and the cache state of reused MFT / NFT objects
+
+SEL_FUNCS = {   # name -> (needs real input, 2-d)
+    'fft': (False, False), 'ifft': (False, False), 'fft2': (False, True), 'ifft2': (False, True), 'fftn': (False, True),
+    'ifftn': (False, True), 'rfft': (True, False), 'irfft': (False, False), 'rfft2': (True, True), 'irfft2': (False, True),
+    'rfftn': (True, True), 'irfftn': (False, True), 'hfft': (False, False), 'ihfft': (True, False),
+}
+SEL_DTYPES = {   # dtype -> (model class, real?)
+    'float16': ('half', True), 'float32': ('single', True), 'float64': ('double', True), 'longdouble': ('longdouble', True),
+    'complex64': ('single', False), 'complex128': ('double', False), 'clongdouble': ('longdouble', False),
+    'int64': ('integer', True), 'bool': ('integer', True), 'int16': ('integer', True),
+}
+SEL_PREC = {'float32': 'single', 'complex64': 'single', 'float64': 'double', 'complex128': 'double',
+            'float128': 'longdouble', 'complex256': 'longdouble'}
+SEL_NAMES = ['mkl', 'fftw', 'scipy', 'numpy']
+
+
+def gen_select_case(rng, directed=None):
+    if directed is not None:
+        return directed
+    names = SEL_NAMES + ['bogus']
+    nm = int(rng.choice([0, 1, 2, 2, 3, 3, 4, 5]))
+    use_method_arg = bool(rng.random() < 0.2)
+    methods = [str(rng.choice(names, p=[0.2, 0.2, 0.25, 0.25, 0.1])) for _ in range(1 if use_method_arg else nm)]
+    cpu = int(rng.choice([1, 2, 4, 16]))
+    threads = None if rng.random() < 0.55 else int(rng.choice([1, 2, 3, cpu]))
+    big = bool(rng.random() < 0.12)
+    func = str(rng.choice(sorted(SEL_FUNCS)))
+    need_real, _ = SEL_FUNCS[func]
+    dts = [d for d in SEL_DTYPES if SEL_DTYPES[d][1] or not need_real]
+    w = np.array([6.0 if d in ('float32', 'float64', 'complex64', 'complex128') else 1.0 for d in dts])
+    dtype = str(rng.choice(dts, p=w / w.sum()))
+    if big:
+        dtype = str(rng.choice(['complex64', 'float32'] if not need_real else ['float32']))
+    fails = []
+    attempts = sorted(set([cpu, 1] + ([threads] if threads is not None else [])))
+    for m in SEL_NAMES:
+        r = rng.random()
+        if r < 0.15:
+            fails += [[m, t] for t in attempts]            # raises whatever the number of workers
+        elif r < 0.45 and m in ('fftw', 'scipy'):
+            fails.append([m, int(rng.choice(attempts))])   # raises for one number of workers only
+    return {'func': func, 'dtype': dtype, 'methods': methods, 'method_arg': use_method_arg, 'cpu': cpu, 'threads': threads, 'big': big,
+            'mkl': bool(rng.random() < 0.5), 'fftw': bool(rng.random() < 0.5), 'fails': fails}
+
+
+SELECT_DIRECTED = [
+    # the audit's side finding: an explicit threads= (UnboundLocalError before D190)
+    {'func': 'fft', 'dtype': 'float64', 'methods': ['scipy'], 'method_arg': False, 'cpu': 4, 'threads': 1, 'big': False, 'mkl': False, 'fftw': False, 'fails': []},
+    {'func': 'fft2', 'dtype': 'complex64', 'methods': ['fftw', 'numpy'], 'method_arg': False, 'cpu': 4, 'threads': 3, 'big': False, 'mkl': False, 'fftw': True, 'fails': [['fftw', 3]]},
+    # big input: the multithreaded attempt fails for every backend, the single-threaded one works
+    {'func': 'fft2', 'dtype': 'complex64', 'methods': ['fftw', 'scipy'], 'method_arg': False, 'cpu': 16, 'threads': None, 'big': True, 'mkl': False, 'fftw': True,
+     'fails': [['fftw', 16], ['scipy', 16]]},
+    # nothing works: ValueError after both thread attempts
+    {'func': 'ifft', 'dtype': 'complex128', 'methods': ['mkl', 'scipy', 'numpy'], 'method_arg': False, 'cpu': 2, 'threads': None, 'big': True, 'mkl': True, 'fftw': False,
+     'fails': [['mkl', 1], ['mkl', 2], ['scipy', 1], ['scipy', 2], ['numpy', 1], ['numpy', 2]]},
+    # unavailable modules and unknown names are skipped silently; empty list
+    {'func': 'rfft', 'dtype': 'float32', 'methods': ['mkl', 'bogus', 'fftw', 'numpy'], 'method_arg': False, 'cpu': 4, 'threads': None, 'big': False, 'mkl': False, 'fftw': False, 'fails': []},
+    {'func': 'fft', 'dtype': 'float64', 'methods': [], 'method_arg': False, 'cpu': 4, 'threads': None, 'big': False, 'mkl': True, 'fftw': True, 'fails': []},
+    # the numpy branch casts: non-standard depths differ from the other backends (accepted divergence)
+    {'func': 'fft', 'dtype': 'float16', 'methods': ['numpy'], 'method_arg': True, 'cpu': 4, 'threads': None, 'big': False, 'mkl': False, 'fftw': False, 'fails': []},
+    {'func': 'irfft', 'dtype': 'clongdouble', 'methods': ['scipy', 'numpy'], 'method_arg': False, 'cpu': 4, 'threads': None, 'big': False, 'mkl': False, 'fftw': False, 'fails': [['scipy', 1], ['scipy', 4]]},
+]
+
+
+def _select_input(case):
+    _, two_d = SEL_FUNCS[case['func']]
+    n = 65536 if case['big'] else 16
+    k = np.arange(n, dtype=float)
+    base = ((k * 7) % 11 - 5.0) / 4.0
+    dt = np.dtype(case['dtype'])
+    if dt.kind == 'c':
+        x = (base + 1j * (((k * 3) % 5) - 2.0) / 2.0).astype(dt)
+    elif dt.kind == 'b':
+        x = (base > 0)
+    else:
+        x = base.astype(dt)
+    return x.reshape((256, 256) if case['big'] else (4, 4)) if two_d else x
+
+
+def run_select_real(case):
+    """call the real `_make_func` closure, re-made over recording fake backends; returns the observation"""
+    import types
+    import scipy.fft as _sfft
+    from hcipy._math import fft as F
+    func_name = case['func']
+    log, anomalies = [], []
+    fails = set((m, t) for m, t in case['fails'])
+    all_t = sorted(set([case['cpu'], 1] + ([case['threads']] if case['threads'] is not None else [])))
+
+    def backend(name, real, takes_workers):
+        def fake(x, *args, **kw):
+            w = kw.pop('workers', None)
+            kw.pop('overwrite_x', None)
+            if (w is not None) != takes_workers:
+                anomalies.append('backend %s called with workers=%r' % (name, w))
+            log.append((name, w))
+            bad = ((name, w) in fails) if takes_workers else all((name, t) in fails for t in all_t)
+            if bad:
+                raise RuntimeError('injected failure of %s' % name)
+            return real(x, *args, **kw)
+        fake.__name__ = func_name
+        return fake
+
+    sreal = getattr(_sfft, func_name)
+    nreal = getattr(np.fft, func_name)
+    saved = {k: getattr(F, k) for k in ('mkl_fft', 'pyfftw', 'scipy', 'np', '_CPU_COUNT')}
+    x = _select_input(case)
+    x0 = x.copy()
+    obs = {}
+    try:
+        F.mkl_fft = types.SimpleNamespace(**{func_name: backend('mkl', sreal, False)}) if case['mkl'] else None
+        F.pyfftw = types.SimpleNamespace(interfaces=types.SimpleNamespace(scipy_fft=types.SimpleNamespace(**{func_name: backend('fftw', sreal, True)}))) if case['fftw'] else None
+        F.scipy = types.SimpleNamespace(fft=types.SimpleNamespace(**{func_name: backend('scipy', sreal, True)}))
+        F.np = types.SimpleNamespace(fft=types.SimpleNamespace(**{func_name: backend('numpy', nreal, False)}))
+        F._CPU_COUNT = case['cpu']
+        func = F._make_func(func_name)
+        kw = {}
+        if case['threads'] is not None:
+            kw['threads'] = case['threads']
+        with warnings.catch_warnings(record=True) as wlist:
+            warnings.simplefilter('always')
+            try:
+                if case['method_arg']:
+                    res = func(x, method=case['methods'][0], **kw)
+                else:
+                    with config(method=case['methods']):
+                        res = func(x, **kw)
+                obs['dtype'] = str(res.dtype)
+                obs['res'] = res
+            except Exception as e:  # noqa
+                obs['error'] = type(e).__name__
+                obs['msg'] = str(e)[:120]
+        obs['warns'] = len([w for w in wlist if 'FFT method' in str(w.message) or 'raised an exception' in str(w.message)])
+        obs['rounds'] = len([w for w in wlist if 'could be found using' in str(w.message)])
+    finally:
+        for k, v in saved.items():
+            setattr(F, k, v)
+    obs['calls'] = list(log)
+    obs['anomalies'] = anomalies
+    obs['intact'] = bool(np.array_equal(x, x0))
+    obs['ref'] = sreal(x0)
+    # `DtIn.standard` (hypothesis of select_value_independent): on the unpatched module, does the numpy branch hand out
+    # the bit depth the other backends hand out?
+    with warnings.catch_warnings():
+        warnings.simplefilter('ignore')
+        obs['std'] = str(getattr(F, func_name)(x0.copy(), method='numpy').dtype) == str(getattr(F, func_name)(x0.copy(), method='scipy').dtype)
+    return obs
+
+
+def select_line(case):
+    toks = ['C19', 'select', str(case['cpu']), '1' if case['mkl'] else '0', '1' if case['fftw'] else '0',
+            ','.join(case['methods']) if case['methods'] else '-', '-' if case['threads'] is None else str(case['threads']),
+            '1' if case['big'] else '0', SEL_DTYPES[case['dtype']][0]]
+    toks += ['%s.%d' % (m, t) for m, t in case['fails']]
+    return ' '.join(toks)
+
+
+def select_oracle(case, obs):
+    """the property on the real observation (no model): list of (key, what)"""
+    bad = []
+    usable = {'mkl': case['mkl'], 'fftw': case['fftw'], 'scipy': True, 'numpy': True}
+    fails = set((m, t) for m, t in case['fails'])
+    attempts = [case['threads']] if case['threads'] is not None else ([case['cpu'], 1] if case['big'] else [1])
+    some_works = any(usable.get(m, False) and (m, t) not in fails for t in attempts for m in case['methods'])
+    tag = 'threads=%s' % ('None' if case['threads'] is None else 'n')
+    if obs['anomalies']:
+        return [('select workers-argument', '%s: %s' % (case['func'], obs['anomalies'][0]))]
+    for name, w in obs['calls']:
+        if w is not None and w not in attempts:
+            return [('select workers-argument', '%s(x, threads=%r): backend %s called with workers=%r, not one of the attempts %r' % (case['func'], case['threads'], name, w, attempts))]
+    if 'error' in obs:
+        if obs['error'] != 'ValueError' or 'No suitable' not in obs['msg']:
+            bad.append(('select raises %s %s' % (obs['error'], tag),
+                        'hcipy._math.fft.%s(x, threads=%r) with methods %r raises %s: %s' % (case['func'], case['threads'], case['methods'], obs['error'], obs['msg'])))
+        elif some_works:
+            bad.append(('select gives-up %s' % tag, '%s raises ValueError although a listed backend works: methods %r, failing %r' % (case['func'], case['methods'], case['fails'])))
+        return bad
+    if not some_works:
+        bad.append(('select returns-without-backend', '%s returned a result although no listed backend works' % case['func']))
+        return bad
+    if not obs['intact']:
+        bad.append(('select input-modified', '%s modified its input' % case['func']))
+    ref, res = obs['ref'], obs['res']
+    standard = SEL_DTYPES[case['dtype']][0] in ('single', 'double', 'integer')
+    if standard and str(res.dtype) != str(ref.dtype):
+        bad.append(('select dtype %s' % obs['calls'][-1][0], '%s on %s input returns %s through backend %s, %s through the reference backend' % (
+            case['func'], case['dtype'], res.dtype, obs['calls'][-1][0], ref.dtype)))
+    tol = 2e-3 if case['dtype'] == 'float16' else (5e-5 if min(res.dtype.itemsize, ref.dtype.itemsize) <= 8 and res.dtype.kind == 'c' or res.dtype.itemsize <= 4 else 1e-10)
+    scale = max(float(np.max(np.abs(ref))), 1e-300)
+    if res.shape != ref.shape or not float(np.max(np.abs(res.astype(np.complex128) - ref.astype(np.complex128)))) <= tol * scale:
+        bad.append(('select values %s' % obs['calls'][-1][0], '%s through backend %s differs from the reference backend' % (case['func'], obs['calls'][-1][0])))
+    return bad
+
+
+def check_select(ctx, case, answer=None):
+    obs = run_select_real(case)
+    bad = select_oracle(case, obs)
+    if ctx is not None:
+        ctx.count('select:threads=%s' % ('None' if case['threads'] is None else 'explicit'))
+        ctx.count('select:big' if case['big'] else 'select:small')
+        ctx.count('select:outcome=%s' % (obs.get('error') or (obs['calls'][-1][0] if obs['calls'] else '?')))
+        ctx.count('select:calls=%d' % len(obs['calls']))
+        ctx.count('select:dtype=%s' % SEL_DTYPES[case['dtype']][0])
+        if 'res' in obs and SEL_DTYPES[case['dtype']][0] in ('half', 'longdouble') and str(obs['res'].dtype) != str(obs['ref'].dtype):
+            ctx.count('accepted-divergence:fft-bit-depth-%s-through-numpy' % SEL_DTYPES[case['dtype']][0])
+    return obs, bad
+
+
+def select_correspondence(ctx, case, obs, answer):
+    ctx.traces_validated += 1
+    if not answer.startswith('ok '):
+        ctx.disagree('C19 select', {'case': case, 'model': answer})
+        return
+    m = dict(t.split('=', 1) for t in answer.split()[1:])
+    if 'error' in obs:
+        sel = 'E:value' if obs['error'] == 'ValueError' else 'E:' + obs['error']
+        prec, workers = '-', '-'
+    else:
+        last = obs['calls'][-1] if obs['calls'] else ('?', None)
+        # the thread attempt of the successful call: one "no method with n threads" warning per exhausted attempt
+        attempts = [case['threads']] if case['threads'] is not None else ([case['cpu'], 1] if case['big'] else [1])
+        sel = last[0] + '.' + (str(attempts[obs['rounds']]) if obs['rounds'] < len(attempts) else '?')
+        prec = SEL_PREC.get(obs['dtype'], obs['dtype'])
+        workers = '-' if last[1] is None else str(last[1])
+    # calls: the fakes of mkl/numpy do not see the number of threads; compare names, and workers where passed
+    mcalls = [] if m['calls'] == '-' else [c.split('.') for c in m['calls'].split(',')]
+    rcalls = obs['calls']
+    same_calls = len(mcalls) == len(rcalls) and all(mc[0] == rc[0] and (rc[1] is None or int(mc[1]) == rc[1]) for mc, rc in zip(mcalls, rcalls))
+    std = '1' if obs['std'] else '0'
+    if sel != m['sel'] or not same_calls or int(m['warns']) != obs['warns'] or prec != m['prec'] or workers != m['workers'] or std != m['std']:
+        ctx.disagree('C19 select vs _make_func', {'case': case, 'model': answer,
+                                                'impl': {'sel': sel, 'calls': rcalls, 'warns': obs['warns'], 'prec': prec, 'workers': workers, 'std': std}})
+
+
+def run_select_tie(ctx):
+    rng = ctx.rng
+    cases = list(SELECT_DIRECTED) + [gen_select_case(rng) for _ in range(ctx.scale(400, 6000))]
+    lines, done = [], []
+    for case in cases:
+        obs, bad = check_select(ctx, case)
+        ctx.case(None, nontrivial_key=('select', case['func'], tuple(case['methods']), case['threads'], case['big'], len(case['fails'])) if case['methods'] else None)
+        for key, what in bad[:1]:
+            ctx.violation(key, what, {'select': case})
+        lines.append(select_line(case))
+        done.append((case, obs))
+    out = ctx.model(lines)
+    for (case, obs), ans in zip(done, out):
+        select_correspondence(ctx, case, obs, ans)
+    # the unpatched backends on one input above the 256x256 threshold (two thread attempts in the real code)
+    from hcipy._math import fft as F
+    x = _select_input({'func': 'fft2', 'big': True, 'dtype': 'complex64'})
+    ref = None
+    for meth in METHODS:
+        with config(method=meth), warnings.catch_warnings():
+            warnings.simplefilter('error')
+            r = F.fft2(x)
+        ctx.count('select:real-big')
+        if ref is None:
+            ref = r
+        elif r.dtype != ref.dtype or not np.max(np.abs(r - ref)) <= 2e-4 * np.max(np.abs(ref)):
+            ctx.violation('select real-big %s' % '+'.join(meth), 'fft2 of a 256x256 complex64 array differs between method lists %r and %r' % (METHODS[0], meth),
+                          {'select_real_big': meth})
+
+
+# --- cache state of reused MFT / NFT objects -----------------------------------------------------
+
+def gen_cache_script(rng, n):
+    return [[str(rng.choice(['f', 'b'])), int(rng.choice([64, 128]))] for _ in range(n)]
+
+
+CACHE_DIRECTED = [[['f', 64], ['f', 128], ['b', 128], ['b', 64]], [['b', 128], ['b', 128], ['f', 64], ['f', 64], ['b', 128]]]
+
+
+def _cache_grids(params):
+    import hcipy
+    n, m = params['n'], params['m']
+    pupil = hcipy.make_pupil_grid([n, n + params['odd']], [1.0, 1.5])
+    focal = hcipy.CartesianGrid(hcipy.SeparatedCoords([np.linspace(-3, 3, m) * (1 + 0.1 * np.arange(m) / m), np.linspace(-2, 2, m + 1)]))
+    return pupil, focal
+
+
+def run_cache_real(kind, params, pre, alloc, via_config, new_style, script):
+    """one real object reused over the script; per call: (state string, relative error vs fresh object, dtype ok)"""
+    import hcipy
+    rows = []
+    with config(new_style=new_style):
+        pupil, focal = _cache_grids(params)
+        def make(pre_, alloc_):
+            if kind == 'mft':
+                return hcipy.MatrixFourierTransform(pupil, focal, precompute_matrices=pre_, allocate_intermediate=alloc_)
+            return hcipy.NaiveFourierTransform(pupil, focal, precompute_matrices=pre_)
+        if via_config:
+            # the *other* transform's switch is set the opposite way: reading the wrong key shows
+            with config(**({'mft_pre': pre, 'mft_alloc': alloc, 'nft_pre': not pre} if kind == 'mft' else {'nft_pre': pre, 'mft_pre': not pre, 'mft_alloc': not pre})):
+                obj = make(None, None)
+        else:
+            obj = make(pre, alloc)
+        for i, (d, p) in enumerate(script):
+            grid = pupil if d == 'f' else focal
+            k = np.arange(grid.size, dtype=float)
+            vals = (((k * 5 + i) % 7) - 3.0) / 4.0 + 1j * ((((k + 2 * i) * 3) % 5) - 2.0) / 8.0
+            cdt = 'complex64' if p == 64 else 'complex128'
+            fld = hcipy.Field(vals.astype(cdt), grid)
+            fresh = make(False, False)
+            with warnings.catch_warnings():
+                warnings.simplefilter('error')
+                f = (fresh.forward if d == 'f' else fresh.backward)(fld.copy())
+                try:
+                    r = (obj.forward if d == 'f' else obj.backward)(fld)
+                except Exception as e:  # noqa
+                    rows.append({'raises': '%s: %s' % (type(e).__name__, str(e)[:100]), 'state': 'raised', 'err': float('inf')})
+                    break
+            ra, fa = np.asarray(r), np.asarray(f)
+            err = float(np.max(np.abs(ra - fa))) / max(float(np.max(np.abs(fa))), 1e-300)
+            key = lambda dt: '-' if dt is None else {'complex64': '64', 'complex128': '128'}.get(str(np.dtype(dt)), str(dt))
+            if kind == 'mft':
+                # k: the recorded dtype describes the matrices (the model's `keyedB`, invariant of mft_call_independent)
+                keyed = (obj.M1 is None and obj.M2 is None) if obj.matrices_dtype is None else (
+                    obj.M1 is not None and obj.M2 is not None and str(obj.M1.dtype) == str(np.dtype(obj.matrices_dtype)) == str(obj.M2.dtype))
+                state = 'm%si%sk%d' % (key(obj.matrices_dtype), key(obj.intermediate_dtype), keyed)
+                consistent = ((obj.M1 is None) == (obj.matrices_dtype is None) and (obj.M2 is None) == (obj.M1 is None)
+                              and (obj.intermediate_array is None) == (obj.intermediate_dtype is None)
+                              and (obj.M1 is None or str(obj.M1.dtype) == str(np.dtype(obj.matrices_dtype)))
+                              and (obj.intermediate_array is None or str(obj.intermediate_array.dtype) == str(np.dtype(obj.intermediate_dtype))))
+            else:
+                state = 'f%db%d' % (obj._matrix_forward is not None, obj._matrix_backward is not None)
+                consistent = True
+            rows.append({'state': state, 'err': err, 'dtype_ok': str(ra.dtype) == cdt and str(fa.dtype) == cdt, 'consistent': consistent,
+                         'grid_ok': is_field(r) and r.grid == (focal if d == 'f' else pupil) and type(r) is type(f)})
+    return rows
+
+
+def check_cache(ctx, kind, params, pre, alloc, via_config, new_style, script):
+    rows = run_cache_real(kind, params, pre, alloc, via_config, new_style, script)
+    bad = []
+    sw = 'pre=%d' % pre + (' alloc=%d' % alloc if kind == 'mft' else '')
+    for i, (row, (d, p)) in enumerate(zip(rows, script)):
+        tol = 5e-4 if p == 64 else 1e-9
+        if 'raises' in row:
+            bad.append(('cache %s raises %s' % (kind, sw), 'call %d (%s, complex%d) on the reused %s object (%s) raises %s; a fresh object with the switches off works' % (i, d, p, kind, sw, row['raises'])))
+        elif not row['err'] <= tol:
+            bad.append(('cache %s values %s' % (kind, sw), 'call %d (%s, complex%d) on the reused %s object (%s) differs by %.3g relative from a fresh object with the switches off' % (
+                i, d, p, kind, sw, row['err'])))
+        elif not row['dtype_ok'] or not row['grid_ok']:
+            bad.append(('cache %s type %s' % (kind, sw), 'call %d (%s, complex%d) on the reused %s object (%s): result dtype / Field type / grid differs from a fresh object' % (i, d, p, kind, sw)))
+        elif not row['consistent']:
+            bad.append(('cache %s state %s' % (kind, sw), 'after call %d (%s, complex%d) the recorded dtypes of the %s object (%s) do not describe its arrays: %s' % (i, d, p, kind, sw, row['state'])))
+    return rows, bad
+
+
+def run_cache_tie(ctx):
+    rng = ctx.rng
+    lines, done = [], []
+    for kind in ('mft', 'nft'):
+        scripts = [list(sc) for sc in CACHE_DIRECTED] + [gen_cache_script(rng, int(rng.integers(3, 9))) for _ in range(ctx.scale(6, 60))]
+        for si, script in enumerate(scripts):
+            params = {'n': int(rng.choice([4, 5, 6, 8])), 'm': int(rng.choice([3, 5, 6])), 'odd': int(rng.integers(0, 2))}
+            for pre, alloc in ([(a, b) for a in (False, True) for b in (False, True)] if kind == 'mft' else [(False, False), (True, False)]):
+                via_config = bool((si + pre + alloc) % 2)
+                new_style = bool(rng.integers(0, 2))
+                rows, bad = check_cache(ctx, kind, params, pre, alloc, via_config, new_style, script)
+                ctx.count('cache:%s pre=%d alloc=%d' % (kind, pre, alloc))
+                ctx.count('cache-calls', len(script))
+                ctx.case(None, nontrivial_key=('cache', kind, pre, alloc, tuple(map(tuple, script))))
+                for key, what in bad[:1]:
+                    ctx.violation(key, what, {'cache': kind, 'params': params, 'pre': pre, 'alloc': alloc, 'via_config': via_config, 'new_style': new_style, 'script': script})
+                toks = ['C19', kind, '1' if pre else '0'] + (['1' if alloc else '0'] if kind == 'mft' else []) + ['%s.%d' % (d, p) for d, p in script]
+                lines.append(' '.join(toks))
+                done.append((kind, params, pre, alloc, script, rows))
+    out = ctx.model(lines)
+    for (kind, params, pre, alloc, script, rows), ans in zip(done, out):
+        ctx.traces_validated += 1
+        impl = ' '.join('%s/%s' % (r['state'], 'fresh' if r['err'] <= (5e-4 if p == 64 else 1e-9) else 'stale') for r, (d, p) in zip(rows, script))
+        if ans != 'ok ' + impl:
+            ctx.disagree('C19 %s cache vs model' % kind, {'kind': kind, 'params': params, 'pre': pre, 'alloc': alloc, 'script': script, 'impl': impl, 'model': ans})
 
 
 # ---------------------------------------------------------------------------------------------
@@ -2507,6 +3072,21 @@ DIRECTED = [
     {'grids': G4, 'final': [0], 'stmts': [['assign', 0, _f(0, [1, 2, 3, 4])], ['assign', 1, ['bin', 'add', 0, ['var', 0], ['lit', [3], 'r', [1.0, 2.0, 3.0], []]]]]},
     {'grids': G4, 'final': [0], 'stmts': [['assign', 0, _f(0, [1, 2, 3, 4])], ['assign', 1, ['idx', 'atl', [4], ['var', 0]]]]},
     {'grids': [{'dims': [4], 'sep': False}], 'final': [0], 'stmts': [['assign', 0, _f(0, [1, 2, 3, 4])], ['assign', 1, ['shaped', ['var', 0], 0]]]},
+    # accepted divergence, generated on purpose (model: `agree?` = false at that statement): `.shaped` of something that
+    # is a Field under one style only — 0-d result (1-point grid: works / AttributeError; 4 points: ValueError / AttributeError),
+    # np.where (AttributeError / works), a product with a 0-d result, and one statement later than the first `.shaped`
+    {'grids': [{'dims': [1], 'sep': True}], 'final': [0], 'stmts': [['assign', 0, _f(0, [3])], ['assign', 1, ['shaped', ['red', 'max', 'all', 0, ['var', 0]], 0]]]},
+    {'grids': G4, 'final': [0], 'stmts': [['assign', 0, _f(0, [1, 2, 3, 4])], ['assign', 1, ['shaped', ['red', 'sum', 'all', 1, ['var', 0]], 0]]]},
+    {'grids': G4, 'final': [0], 'stmts': [['assign', 0, _f(0, [1, -2, 3, -4])],
+                                         ['assign', 1, ['shaped', ['app3', 'where', 0, ['bin', 'gt', 0, ['var', 0], ['scal', 'r', 0.0, 0.0, 0]], ['var', 0], ['scal', 'r', 0.5, 0.0, 0]], 0]]]},
+    {'grids': G4, 'final': [0, 1, 2], 'stmts': [['assign', 0, _f(0, [1, 2, 3, 4])], ['assign', 1, ['shaped', ['var', 0], 0]],
+                                               ['assign', 2, ['bin', 'mul', 0, ['red', 'sum', 'all', 0, ['var', 0]], ['lit', [4], 'r', [1.0, 2.0, 0.5, 1.0], []]]],
+                                               ['assign', 3, ['bin', 'add', 0, ['shaped', ['var', 2], 0], ['scal', 'r', 1.0, 0.0, 0]]]]},
+    # np.where of scalars is a 0-d *array* (not a scalar) under every style, and stays one through ndarray methods
+    {'grids': G4, 'final': [0, 1, 2, 3, 4], 'stmts': [['assign', 0, _f(0, [1, 2, 3, 4])], ['assign', 1, ['app1', 'amin', ['all'], 3, ['var', 0]]],
+                                                     ['assign', 2, ['bin', 'ne', 5, ['var', 1], ['scal', 'r', 0.875, 0.0, 1]]],
+                                                     ['assign', 3, ['app3', 'where', 1, ['var', 2], ['var', 1], ['var', 1]]],
+                                                     ['assign', 4, ['app1', 'as', ['b'], 9, ['var', 3]]]]},
     # the wrapper-specific paths: tuple-valued ufuncs, where=, in-place methods, conversions
     {'grids': G4, 'final': [0], 'stmts': [['assign', 0, _f(0, [1.5, -2, 3, 4])], ['assign', 1, ['ext', 'divmod', [['var', 0], ['var', 0]]]]]},
     {'grids': G4, 'final': [0], 'stmts': [['assign', 0, _f(0, [1.5, -2, 3, 4])], ['assign', 1, ['ext', 'add_where_outfield', [['var', 0], ['var', 0]]]]]},
@@ -2549,7 +3129,13 @@ def check_program(ctx, prog, label):
     plain = run_program(prog, 'plain')
     old = run_program(prog, 'old')
     new = run_program(prog, 'new')
-    fails = oracle(prog, plain, old, new)
+    # the mixed-style run: every program in the quick tier, every second one in the thorough tier (time budget)
+    ctx._nprog = getattr(ctx, '_nprog', 0) + 1
+    mixed = False
+    if ctx.tier != 'thorough' or ctx._nprog % 2 == 0 or label == 'directed':
+        mixed = run_program(prog, 'mixed')
+        ctx.count('mixed-style-runs')
+    fails = oracle(prog, plain, old, new, mixed)
     if fails:
         seen = set()
         for key, what in fails:
@@ -2567,6 +3153,8 @@ def check_program(ctx, prog, label):
     kinds = sorted(set(stmt_sig(s).split('.')[0].split('=')[0] for s in prog['stmts']))
     errored = bool(plain[0]) and plain[0][-1][0] == 'E'
     ctx.count('programs:' + label)
+    if prog.get('final_views'):
+        ctx.count('views-read-after-update-of-their-root', len(prog['final_views']))
     ctx.count('statements', nst)
     ctx.count('n:%d' % int(np.prod(prog['grids'][0]['dims'])))
     for s in prog['stmts']:
@@ -2577,6 +3165,10 @@ def check_program(ctx, prog, label):
                             if o[0] != 'E' and n[0] != 'E' and isinstance(o[1], dict) and isinstance(n[1], dict))))
     for t in tags:
         ctx.count('tags old/new:%s/%s' % t)
+    div = shaped_divergence(old, new)
+    if div is not None:
+        k = [(a, b) for a, b in zip(div[1], div[2]) if a != b][0]
+        ctx.count('accepted-divergence:shaped-of-%s/%s' % (k[0][0], k[1][0]))
     sig = (label, nst, tuple(stmt_sig(s) for s in prog['stmts']), errored)
     ctx.case({'label': label, 'stmts': [stmt_sig(s) for s in prog['stmts']]} if nst > 4 else None,
              nontrivial_key=sig if nst >= 3 else None)
@@ -2599,8 +3191,12 @@ def run(ctx):
                 'operation is modelled - by both routes of the Lean model. Oracle: old and new must reproduce the reference values, shapes, '
                 'dtype classes and exception classes at every statement and in the final read-out of every variable (aliases included); '
                 'every elementwise node with a Field operand must return a Field on that grid; copy/pickle must return an independent equal '
-                'Field. Correspondence: tag (Field+grid / ndarray / scalar), shape, dtype class and values of every observation of each '
-                'style against the matching model route. Pipelines: 20 library computations (incl. hcipy._math.fft called directly on four dtypes) under all 64 configuration combinations '
+                'Field; values derived by indexing/reshape/shaped/real/imag from a variable that is updated in place afterwards are read at the end too '
+                '(views must behave alike); every program is run a fourth time with the Field style switched between statements (mixed-style operands, '
+                'targets and aliases) against the same reference; .shaped of a value that is a Field under one style only (0-d results, np.where) is '
+                'generated on purpose and held to the predicted AttributeError / reference value (accepted divergence, counted). Correspondence: the model\'s '
+                'decidable side condition agree? against where the real styles first hand different kinds of object to .shaped; tag (Field+grid / ndarray / scalar), shape, dtype class and values of every observation of each '
+                'style against the matching model route. Pipelines: 20 library computations (incl. hcipy._math.fft called directly on four dtypes) under 64 configuration combinations (every pair of switches in all four settings; thorough: the full product of 128 in two of six rounds) '
                 'against the default; 8 kinds of Fourier object (MFT 2-D/1-D, FFT 2-D/1-D, FourierFilter, NFT, make_fourier_transform, ZoomFFT) each REUSED over scripted and random call sequences (precision changes, tensor-shape changes, forward/backward) under every relevant switch x field style x backend, every call compared with a fresh object under the same configuration and with the default configuration; NFT / MFT / make_fourier_transform on polar (separated, regular, unstructured) and explicitly or automatically weighted Cartesian grids as input, output or both, under every option combination, forward / backward / transformation matrices against the defining weighted Fourier sum computed by the harness. Non-trivial = at least three statements; distinct by the sequence of statement signatures.')
     ctx.assumptions += ['plain ndarray arithmetic is the reference for the values',
                         'dyadic inputs: results are exact or within 1e-12 of the exact value',
@@ -2649,6 +3245,7 @@ def _run(ctx):
     default = snapshot_config()
     default = {k: default[k] for k in ('new_style', 'emulate', 'mft_pre', 'mft_alloc', 'nft_pre', 'method')}
     combos = all_combos()
+    combos_full = all_combos(full=True)
     names = sorted(_pipelines())
     reps = ctx.scale(1, 6)
     for rep in range(reps):
@@ -2657,7 +3254,7 @@ def _run(ctx):
                       'tilt': dy(rng, -4, 4), 'odd': int(rng.integers(0, 2))}
             if name in ('vortex', 'pyramid', 'perfect'):
                 params['n'] = int(rng.choice([16, 24, 32]))
-            use = combos if (ctx.tier == 'thorough' or name not in ('vortex', 'pyramid', 'atmos', 'perfect')) else \
+            use = (combos_full if rep < 2 else combos) if ctx.tier == 'thorough' else combos if name not in ('vortex', 'pyramid', 'atmos', 'perfect') else \
                 [combos[int(i)] for i in rng.choice(len(combos), size=16, replace=False)]
             bad = check_pipeline(name, params, use, default)
             ctx.count('pipeline-runs', len(use))
@@ -2672,6 +3269,8 @@ def _run(ctx):
                               {'pipeline': name, 'params': params, 'combo': combo})
     run_reuse_sweep(ctx, default)
     run_weighted_sweep(ctx, default)
+    run_select_tie(ctx)
+    run_cache_tie(ctx)
 
 
 def run_reuse_sweep(ctx, default):
@@ -2701,6 +3300,24 @@ def run_reuse_sweep(ctx, default):
 
 
 def replay(ctx, case):
+    if 'select' in case:
+        obs, bad = check_select(None, case['select'])
+        for key, what in bad:
+            print('  fails:', key, '-', what)
+        return not bad
+    if 'select_real_big' in case:
+        from hcipy._math import fft as F
+        x = _select_input({'func': 'fft2', 'big': True, 'dtype': 'complex64'})
+        with config(method=METHODS[0]):
+            a = F.fft2(x)
+        with config(method=case['select_real_big']):
+            b = F.fft2(x)
+        return bool(a.dtype == b.dtype and np.max(np.abs(a - b)) <= 2e-4 * np.max(np.abs(a)))
+    if 'cache' in case:
+        rows, bad = check_cache(None, case['cache'], case['params'], case['pre'], case['alloc'], case['via_config'], case['new_style'], case['script'])
+        for key, what in bad:
+            print('  fails:', key, '-', what)
+        return not bad
     if 'weighted' in case:
         bad = check_weighted(case['weighted'], case['side'], case['transform'], case['params'], [case['combo']])
         for part, combo, what in bad:
